@@ -16,6 +16,8 @@ CASES = [
     'ref_mixed_col1_table1', 'ref_mixed_col2_table2', 'ref_mixed_dbml', 'ref_composite_inline_dbml',
     'table_get_refs_detached', 'column_get_refs_detached', 'table_sql_refs_detached',
     'ref_no_type', 'ref_m2m_detached_sql', 'column_in_table_no_type', 'table_in_db_no_name',
+    'item_in_enum_no_name', 'item_in_db_enum_no_name', 'column_in_table_no_name', 'index_in_table_no_subjects', 'enum_in_db_no_schema',
+    'ref_mixed_same_fullname_table1', 'ref_mixed_same_fullname_dbml', 'ref_in_db_detached_sql', 'ref_in_db_detached_dbml',
 ]
 
 
@@ -106,6 +108,36 @@ def refused(K=2):
         if case == 'ref_composite_inline_dbml':
             r = Reference('>', [t1.columns[0], t1.columns[1]], [t2.columns[0], t2.columns[1]], inline=True)
             return (lambda: r.dbml), ex.DBMLError
+        if case == 'item_in_enum_no_name':
+            en.items[1].name = None
+            return (lambda: en.sql), ex.AttributeMissingError
+        if case == 'item_in_db_enum_no_name':
+            en.items[0].name = None
+            return (lambda: db.sql), ex.AttributeMissingError if a['p_add'] else None
+        if case == 'column_in_table_no_name':
+            t1.columns[1].name = None
+            return (lambda: t1.sql), ex.AttributeMissingError
+        if case == 'index_in_table_no_subjects':
+            ix = Index([t1.columns[0]], pk=a['p_inline'])
+            t1.add_index(ix)
+            ix.subjects = None
+            # a detached table refuses .sql earlier (unknown database) unless the pk index is reached inside the body
+            return (lambda: t1.sql), (ex.AttributeMissingError if (a['p_add'] or a['p_inline']) else None)
+        if case == 'enum_in_db_no_schema':
+            en.schema = None
+            return (lambda: db.sql), ex.AttributeMissingError if a['p_add'] else None
+        if case in ('ref_mixed_same_fullname_table1', 'ref_mixed_same_fullname_dbml'):
+            # two different tables that answer to the same schema.name (e.g. after a rename, or from two databases)
+            twin = Table('t', columns=[Column('id', 'int'), Column(nm, 'int'), Column('extra', 'int')])
+            r = Reference('>', [t1.columns[0], twin.columns[1]], [t2.columns[0], t2.columns[1]])
+            return ((lambda: r.table1) if case.endswith('table1') else (lambda: r.dbml)), ex.DBMLError
+        if case in ('ref_in_db_detached_sql', 'ref_in_db_detached_dbml'):
+            if not a['p_add']:
+                return None, None
+            r = Reference('>', [t1.columns[1]], [t2.columns[0]], inline=a['p_inline'])
+            db.add(r)
+            t2.delete_column(0)        # the referenced column is detached afterwards (editing history)
+            return ((lambda: db.sql) if case.endswith('sql') else (lambda: db.dbml)), ex.TableNotFoundError
         if case == 'table_get_refs_detached':
             d = Table(nm, columns=[Column('id', 'int')])
             return (lambda: d.get_refs()), ex.UnknownDatabaseError
